@@ -186,6 +186,10 @@ func main() {
 		{"v1-nosig", "v1only", []string{"pay", "sf"}, 2, 2, []chain.AbsOut{{1199, "Z"}}},
 		{"v2-nosig", "v2only", []string{"pay", "sf"}, 2, 2, []chain.AbsOut{{1199, "Z"}}},
 		{"mixed-payments", "mixed", []string{"pay"}, 3, 2, []chain.AbsOut{{1199, "B"}}},
+		// empty files need no storage proof data: the same (empty) proof twice in one transaction
+		{"v1-contract-empty", "v1only", []string{"form1", "prove1"}, 2, 2, []chain.AbsOut{{600000, "B"}}},
+		// three transactions in one block: a payment, a siafund transfer, then a parent named by a foreign id
+		{"v2-confuse", "v2only", []string{"pay", "sf"}, 1, 3, []chain.AbsOut{{1199, "B"}}},
 	}
 	if c.Thorough {
 		fams = append(fams, fam{"v2-renewal", "v2only", []string{"form2", "rev2", "renew2"}, 3, 2, []chain.AbsOut{{600000, "B"}, {300000, "B"}}},
@@ -210,6 +214,12 @@ func main() {
 		cfg.PayAmts, cfg.Fees, cfg.SFSplits = []int{599}, []int{0}, []int{3000}
 		cfg.WinStarts, cfg.WinLens = []int{1}, []int{2}
 		cfg.MaxHeight, cfg.MaxTxns, cfg.MaxReverts, cfg.NoPost = f.height, f.txns, 0, true
+		if f.name == "v1-contract-empty" {
+			cfg.Sizes = []int{0}
+		}
+		if f.name == "v2-confuse" {
+			cfg.Defects = []string{"confuse"}
+		}
 		o := opts
 		o.Exhaustive = true
 		st := chain.Run(c, cfg, o)
@@ -233,7 +243,7 @@ func main() {
 	}
 	c.Traces(int64(total.Behaviours))
 	c.Count(int64(total.Steps), nontriv)
-	for _, need := range []string{"v2:pay!intx", "v1:pay!intx", "v2:pay!reuse", "v1:pay!reuse", "v2:reuse-gone", "v1:reuse-gone", "v2:sf!reuse", "v2:sf!intx", "v1:confuse"} {
+	for _, need := range []string{"v2:pay!intx", "v1:pay!intx", "v2:pay!reuse", "v1:pay!reuse", "v2:reuse-gone", "v1:reuse-gone", "v2:sf!reuse", "v2:sf!intx", "v1:confuse", "v2:confuse", "v1:prove1!intx"} {
 		if cells[need] == 0 {
 			c.Infra("vacuity: second-use cell %s never exercised", need)
 		}
